@@ -230,3 +230,115 @@ Proof.
   destruct ee; rewrite ?Hd, Hlt; reflexivity.
 Qed.
 End Cert.
+
+(* ---------- zstd window cap ---------- *)
+Lemma cut_chunks_good cs : forall off, Forall (fun c => (0 < c)%nat) cs ->
+  Forall (fun c => (0 < c)%nat) (cut_chunks off cs) /\ sum (cut_chunks off cs) = Nat.min off (sum cs).
+Proof.
+  induction cs as [|c cs IH]; intros off Hp.
+  - cbn. split; [constructor | lia].
+  - inversion Hp as [|? ? Hc Hcs]; subst. cbn [cut_chunks]. destruct off as [|o].
+    + cbn. split; [constructor | reflexivity].
+    + cbn [sum fold_right]. fold (sum cs). destruct (c <=? S o)%nat eqn:E.
+      * apply Nat.leb_le in E. destruct (IH (S o - c)%nat Hcs) as [A B]. split; [constructor; assumption|].
+        cbn [sum fold_right]. fold (sum (cut_chunks (S o - c) cs)). rewrite B. lia.
+      * apply Nat.leb_gt in E. split; [constructor; [lia | constructor]|]. unfold sum at 1. cbn [fold_right]. lia.
+Qed.
+
+Lemma truncated_wfr off out chunks : good_reader out chunks ->
+  wfr (mkR (firstn off out) (cut_chunks off chunks) RErr).
+Proof.
+  intros [Hp Hs]. destruct (cut_chunks_good chunks off Hp) as [A B]. split; cbn [r_chunks r_out]; [exact A|].
+  rewrite B, firstn_length, Hs. reflexivity.
+Qed.
+
+Section Top.
+Variable C : Type.
+Variable parse_cert : bytes -> option C.
+Notation top := (decompress_cert_top C parse_cert).
+
+Definition windows_ok (alg : N) (fs : zframes) : Prop :=
+  alg = CertCompressionZstd -> Forall (fun f => fst f <= maxCompressedCertZstdWindow) fs.
+
+Lemma first_over_none cap fs : Forall (fun f => fst f <= cap) fs -> forall acc, first_over cap fs acc = None.
+Proof.
+  induction fs as [|[w n] fs IH]; intros H acc; [reflexivity|]. inversion H as [|? ? Hw Hr]; subst. cbn [first_over fst] in *.
+  replace (cap <? w) with false by lia. apply IH. exact Hr.
+Qed.
+
+Lemma first_over_some cap fs : Exists (fun f => cap < fst f) fs -> forall acc, exists off, first_over cap fs acc = Some off.
+Proof.
+  induction fs as [|[w n] fs IH]; intros H acc; [inversion H|]. cbn [first_over].
+  destruct (cap <? w) eqn:E; [eauto|]. inversion H as [? ? Hw | ? ? Hr]; subst; [cbn in Hw; lia | apply IH; exact Hr].
+Qed.
+
+Lemma effective_id alg fs r : windows_ok alg fs -> effective alg fs r = r.
+Proof.
+  intros H. unfold effective. destruct (alg =? CertCompressionZstd) eqn:E; [|reflexivity].
+  apply N.eqb_eq in E. unfold zstd_effective. rewrite first_over_none by (apply H; exact E). reflexivity.
+Qed.
+
+(* with every declared window within the cap (or brotli/zlib): any valid encoding is recovered exactly *)
+Theorem top_recover ee adv alg out chunks fs :
+  advertisedb adv alg = true -> known_alg alg = true -> good_reader out chunks ->
+  dlen out <= maxHandshakeCertificateMsg -> windows_ok alg fs ->
+  top ee adv alg (dlen out) true fs (mkR out chunks REof) =
+    match parse_cert (header (dlen out) ++ out) with Some c => Ok c | None => Err alertUnexpectedMessage end.
+Proof.
+  intros Ha Hk Hg Hcap Hw. unfold decompress_cert_top. rewrite effective_id by exact Hw.
+  apply cc_recover; assumption.
+Qed.
+
+(* a zstd frame declaring a window above the cap: bad_certificate, whatever else the stream holds *)
+Theorem top_window_refused ee adv declared out chunks e fs :
+  good_reader out chunks -> Exists (fun f => maxCompressedCertZstdWindow < fst f) fs ->
+  top ee adv CertCompressionZstd declared true fs (mkR out chunks e) = Err alertBadCertificate.
+Proof.
+  intros Hg Hex. unfold decompress_cert_top, effective. rewrite N.eqb_refl. unfold zstd_effective.
+  destruct (first_over_some _ _ Hex O) as (off & ->). cbn [r_out r_chunks].
+  destruct (advertisedb adv CertCompressionZstd) eqn:Ha.
+  - rewrite decompress_spec; [| exact Ha | reflexivity | apply truncated_wfr; exact Hg].
+    cbn [r_end]. rewrite andb_false_r. reflexivity.
+  - apply cc_unadvertised. exact Ha.
+Qed.
+
+Lemma effective_cases alg fs out chunks e : good_reader out chunks ->
+  effective alg fs (mkR out chunks e) = mkR out chunks e \/
+  exists off, effective alg fs (mkR out chunks e) = mkR (firstn off out) (cut_chunks off chunks) RErr.
+Proof.
+  intros _. unfold effective. destruct (alg =? CertCompressionZstd); [|left; reflexivity].
+  unfold zstd_effective. destruct (first_over _ fs O); [right; eauto | left; reflexivity].
+Qed.
+
+Theorem top_mismatch ee adv alg declared out chunks e fs :
+  good_reader out chunks -> declared <> dlen out ->
+  top ee adv alg declared true fs (mkR out chunks e) = Err alertBadCertificate.
+Proof.
+  intros Hg Hne. unfold decompress_cert_top.
+  destruct (effective_cases alg fs out chunks e Hg) as [-> | (off & ->)].
+  - destruct (N.lt_trichotomy declared (dlen out)) as [L | [E | G]]; [apply cc_longer | congruence | apply cc_shorter]; assumption.
+  - destruct (advertisedb adv alg) eqn:Ha; [destruct (known_alg alg) eqn:Hk|].
+    + rewrite decompress_spec; [| exact Ha | exact Hk | apply truncated_wfr; exact Hg]. cbn [r_end]. rewrite andb_false_r. reflexivity.
+    + unfold Decompress.decompress_cert, pre_checks. fold (advertisedb adv alg). rewrite Ha, Hk. reflexivity.
+    + apply cc_unadvertised. exact Ha.
+Qed.
+
+Theorem top_unadvertised ee adv alg declared open_ok fs r :
+  advertisedb adv alg = false -> top ee adv alg declared open_ok fs r = Err alertBadCertificate.
+Proof. intros Ha. unfold decompress_cert_top. apply cc_unadvertised. exact Ha. Qed.
+
+Theorem top_only_the_compressed ee adv alg declared out chunks e fs c :
+  good_reader out chunks -> top ee adv alg declared true fs (mkR out chunks e) = Ok c ->
+  advertisedb adv alg = true /\ declared = dlen out /\ e = REof /\ declared <= maxHandshakeCertificateMsg /\
+  parse_cert (header declared ++ out) = Some c.
+Proof.
+  intros Hg H. unfold decompress_cert_top in H.
+  destruct (effective_cases alg fs out chunks e Hg) as [E | (off & E)]; rewrite E in H.
+  - eapply cc_only_the_compressed; eauto.
+  - exfalso. destruct (advertisedb adv alg) eqn:Ha; [destruct (known_alg alg) eqn:Hk|].
+    + rewrite decompress_spec in H; [| exact Ha | exact Hk | apply truncated_wfr; exact Hg]. cbn [r_end] in H.
+      rewrite andb_false_r in H. discriminate.
+    + unfold Decompress.decompress_cert, pre_checks in H. fold (advertisedb adv alg) in H. rewrite Ha, Hk in H. discriminate.
+    + rewrite cc_unadvertised in H by exact Ha. discriminate.
+Qed.
+End Top.
